@@ -246,6 +246,13 @@ def long_axis_events(np, exact, r2c, rnd, th, eid0):
                 v = np.array([rnd.randrange(0, 100) for _ in range(N)], dtype=np.float64)
             x = build(v).astype(dt)
             y = r2c(x, axis=axis)
+            M0 = (N + 1) // 2
+            want_shape = {"rank1": (M0,), "cols": (M0, 2), "rows": (2, M0)}[name]
+            if tuple(y.shape) != want_shape:
+                # a result of another shape cannot be laned; report it through an event whose outlen is wrong
+                evs.append({"id": eid0 + len(evs), "ev": "longshape", "N": N, "prec": "double", "dtype": dt, "layout": name,
+                            "outlen": -1, "got_shape": list(y.shape), "want_shape": list(want_shape)})
+                continue
             lane_x = x if name == "rank1" else (x[:, 0] if name == "cols" else x[1])
             lane_y = y if name == "rank1" else (y[:, 0] if name == "cols" else y[1])
             prec = "single" if dt in SINGLE else "double"
@@ -307,7 +314,17 @@ def run(chk):
             fsets = [written["vdifr"], written["vdifr_lsb"], samples["s_vdif"], samples["s_vdif_lsb"]]
             rev = reader_events(np, exact, rl, fsets, rnd, 12 if th else 3, 8 if not th else 16, len(events))
             events += rev
-            events += long_axis_events(np, exact, r2c, rnd, th, len(events))
+            lev = long_axis_events(np, exact, r2c, rnd, th, len(events))
+            for e in lev:
+                if e["ev"] == "longshape":       # discrete field: the output must have ceil(N/2) samples along the axis
+                    chk.violation("long-axis:shape:%s" % e["layout"],
+                                  "real_to_complex on a %s %s input of length %d returned shape %r, expected %r"
+                                  % (e["dtype"], e["layout"], e["N"], e["got_shape"], e["want_shape"]),
+                                  {"kind": "long", "ev": "longshape", "N": e["N"], "dtype": e["dtype"]})
+            lev = [e for e in lev if e["ev"] != "longshape"]
+            for i, e in enumerate(lev):
+                e["id"] = len(events) + i
+            events += lev
             # refusals and the dtype rule
             for dt in COMPLEX_DTYPES:
                 try:
